@@ -150,6 +150,19 @@ def run(chk, S: Session):
     reversal_kernel_rules(chk, S)
     covariance_algebra_rules(chk, S)
     triangularisation_rules(chk, S)
+    # ... and the triangularisation has the same *value* when the algebra is evaluated under jax.jvp / jax.grad: the custom rule of qr_r returns the R factor
+    # as its primal output (rule of C16)
+    # (rule function of C16 called directly: C16 takes its shape census from this check's scenarios, so a borrow would be circular)
+    from . import c16
+
+    rb16 = chk.rule("R-C08-B", "the conditional algebra has the same values under differentiation: the custom derivative rule of the triangularisation returns the function's own value as primal output (rule function of C16)", floor=1)
+    for m_, fn_, rls_ in c16.custom_rules(S.p):
+        for rule_ in rls_:
+            try:
+                okp, detp = c16.primal_consistency(S.p, m_, fn_, rule_)
+            except AnalysisError as e:
+                okp, detp = None, str(e)
+            rb16.require(okp, f"{m_.name}.{fn_.name} primal output of the rule", detp, f"custom rule {rule_.name}: {detp}", f"{m_.relpath}:{rule_.lineno}")
     # 'dense conversion of a Gaussian': the composite axis of to_multivariate_normal is coefficient-major in all three models (rule function of C14, called
     # directly because C14 borrows from this check)
     from . import c14
